@@ -1,15 +1,15 @@
 """C13: see DESIGN.md section 4 C13."""
-from _ccmon import standard_plan, layout_steps, floor_msgs, COMMON_ASSUMPTIONS, EVOLVE_NOTE
+from _ccmon import standard_plan, layout_steps, floor_msgs, COMMON_ASSUMPTIONS, EVOLVE_NOTE, FAULT_NOTE
 
 LEVEL = "exploration"
 RULE = 'histories are generated per shard from (seed, index) by harness/src/gen.rs (weights of mode C13: 14% try_unwrap on registers / globals whose objects were buffered, collected around, finalized, downgraded) plus the directed corpus harness/src/directed.rs; each is executed against the real crate with all oracles on, followed by an epilogue that releases everything and collects until quiet. distinct = distinct expanded operation lists (FNV hash); plus the layout grid harness/src/bin/layouts.rs: 48 payload layouts (size {0,1,3,8,24,100,1000,4096} x alignment {1,2,8,64,512,4096}, each its own monomorphisation) x up to 10 scenarios (plain drop, collected cycle, try_unwrap fresh / buffered / shared / with side record / with a live Weak / after resurrection, Weak outliving the value, new_cyclic, new_cyclic whose closure panics), enumerated; histories are non-trivial iff try_unwrap returned Ok at least once in the history (Err results are checked as well)'
-RULE += EVOLVE_NOTE
+RULE += EVOLVE_NOTE + FAULT_NOTE
 ASSUMPTIONS = COMMON_ASSUMPTIONS
 FLOORS = {'scenarios': 400, 'try_unwrap_ok': 500, 'try_unwrap_err': 500}
 
 
 def plan(ctx):
-    return standard_plan(ctx, "C13", mode="C13") + layout_steps(ctx, "C13", ctx.quick)
+    return standard_plan(ctx, "C13", mode="C13", after_faults=True) + layout_steps(ctx, "C13", ctx.quick)
 
 
 def floors(ctx, evaluations, distinct, counters, sets):
